@@ -28,6 +28,7 @@ type GNode struct {
 	Alt    *GNode
 	Kids   []*GNode
 	ByName map[string]*GNode
+	IDPtr  *int // may point at the ID field of a node: same address as that node, another type
 }
 
 // descriptor of a graph: node i -> next, alt (-1 = nil), kids, named
@@ -37,12 +38,13 @@ type graphDesc struct {
 	alt   []int
 	kids  [][]int
 	named []map[string]int
+	idptr []int // -1 nil, else the node whose ID field is pointed at
 	root  int
 }
 
 func genGraph(rng *Rng, maxNodes int, features int) graphDesc {
 	n := 1 + rng.Intn(maxNodes)
-	g := graphDesc{n: n, next: make([]int, n), alt: make([]int, n), kids: make([][]int, n), named: make([]map[string]int, n)}
+	g := graphDesc{n: n, next: make([]int, n), alt: make([]int, n), kids: make([][]int, n), named: make([]map[string]int, n), idptr: make([]int, n)}
 	pick := func() int {
 		if rng.P(1, 3) {
 			return -1
@@ -55,8 +57,16 @@ func genGraph(rng *Rng, maxNodes int, features int) graphDesc {
 		if features >= 1 {
 			g.alt[i] = pick()
 		}
+		g.idptr[i] = -1
+		if features >= 3 && rng.P(1, 3) {
+			g.idptr[i] = rng.Intn(n)
+		}
 		if features >= 2 && rng.P(1, 2) {
+			// up to 12 elements: the destination slice is reallocated while it is being built
 			k := rng.Intn(4)
+			if rng.P(1, 3) {
+				k = 4 + rng.Intn(9)
+			}
 			for j := 0; j < k; j++ {
 				g.kids[i] = append(g.kids[i], pick())
 			}
@@ -89,6 +99,9 @@ func (g graphDesc) build() *GNode {
 		for _, k := range g.kids[i] {
 			nd.Kids = append(nd.Kids, at(k))
 		}
+		if g.idptr[i] >= 0 {
+			nd.IDPtr = &nodes[g.idptr[i]].ID
+		}
 		if g.named[i] != nil {
 			nd.ByName = map[string]*GNode{}
 			for k, v := range g.named[i] {
@@ -103,7 +116,7 @@ func (g graphDesc) text() string {
 	var sb strings.Builder
 	fmt.Fprintf(&sb, "root=%d", g.root)
 	for i := 0; i < g.n; i++ {
-		fmt.Fprintf(&sb, " %d:{next=%d alt=%d kids=%v", i, g.next[i], g.alt[i], g.kids[i])
+		fmt.Fprintf(&sb, " %d:{next=%d alt=%d kids=%v idptr=%d", i, g.next[i], g.alt[i], g.kids[i], g.idptr[i])
 		if g.named[i] != nil {
 			keys := make([]string, 0)
 			for k := range g.named[i] {
@@ -124,6 +137,8 @@ func (g graphDesc) text() string {
 func isomorphic(a, b *GNode) (bool, string) {
 	fwd := map[*GNode]*GNode{}
 	bwd := map[*GNode]*GNode{}
+	ifwd := map[*int]*int{} // shared *int pointers stay shared among themselves
+	ibwd := map[*int]*int{}
 	var walk func(x, y *GNode, path string) (bool, string)
 	walk = func(x, y *GNode, path string) (bool, string) {
 		if x == nil || y == nil {
@@ -144,6 +159,21 @@ func isomorphic(a, b *GNode) (bool, string) {
 		fwd[x], bwd[y] = y, x
 		if x.ID != y.ID {
 			return false, fmt.Sprintf("%s: ID %d vs %d", path, x.ID, y.ID)
+		}
+		if (x.IDPtr == nil) != (y.IDPtr == nil) {
+			return false, path + ".IDPtr: nil on one side only"
+		}
+		if x.IDPtr != nil {
+			if *x.IDPtr != *y.IDPtr {
+				return false, fmt.Sprintf("%s.IDPtr: points at %d vs %d", path, *x.IDPtr, *y.IDPtr)
+			}
+			if m, ok := ifwd[x.IDPtr]; ok && m != y.IDPtr {
+				return false, path + ".IDPtr: a shared pointer is a different object after the round trip"
+			}
+			if m, ok := ibwd[y.IDPtr]; ok && m != x.IDPtr {
+				return false, path + ".IDPtr: two distinct pointers became one"
+			}
+			ifwd[x.IDPtr], ibwd[y.IDPtr] = y.IDPtr, x.IDPtr
 		}
 		if ok, why := walk(x.Next, y.Next, path+".Next"); !ok {
 			return false, why
@@ -312,7 +342,7 @@ func abstractGraphEvents(evs []Event) string {
 			// a key
 			name := string(e.D)
 			stack[top].key = false
-			stack[top].skip = name == "by_name"
+			stack[top].skip = name == "by_name" || name == "id_ptr"
 			if name == "id" {
 				stack[top].skip = false
 			}
